@@ -1,8 +1,14 @@
 (* C13 driver.
-   (period ID Q N FROM TO TODAY)                      Q = d|w|m|q|y, FROM/TO = day number or -
-     -> "ID start=S finish=F samples=s:e,s:e,..."     (e = end_of_duration, exclusive) | "ID ERR"
-   (reg ID Q N FROM TO SOW ALIGN EMPTY (D NUM DEN) ...)   postings in date order
+   FMT = hex of the format the bounds are written in (the reader that parses them), CY = current year;
+   FROM/TO = the day number the text names, or -.  The bound the interval object receives is
+   bound_of_text FMT CY day (the reader's traits decide which of year/month/day are kept); the postings
+   are limited to [from, to) with those bounds as report_t::normalize_period does (glue).
+   (period ID Q N FROM TO TODAY FMT CY)                  Q = d|w|m|q|y
+     -> "ID start=S finish=F samples=s:e,s:e,..."        (e = end_of_duration, exclusive) | "ID ERR"
+   (reg ID Q N FROM TO SOW ALIGN EMPTY FMT CY (D NUM DEN) ...)     all postings of the account, date order
      -> "ID rows=s:e:num/den:count;..." | "ID ERR"
+   (greg ID Q N FROM TO SOW ALIGN EMPTY FMT CY (group (D NUM DEN) ...) ...)   --group-by: groups in report
+     order, postings in journal order -> "ID groups=ROWS|ROWS|..."  (ROWS as above, or ERR)
    (civil ID Z) -> "ID y-m-d wd"      (add ID Q N Z) -> "ID z'"        calendar spot checks *)
 let rec nat_of_int n = if n <= 0 then O else S (nat_of_int (n - 1))
 let fuel = nat_of_int 40000
@@ -13,28 +19,51 @@ let quantum = function
 let optz x = match atom x with "-" -> None | s -> Some (z_of_string s)
 let show_opt = function None -> "-" | Some z -> string_of_z z
 
+let bound fmt cy = function
+  | None -> None
+  | Some z -> Some (bound_of_text (str_of_hex (atom fmt)) (zatom cy) z)
+
+let post_of = function
+  | L [d; num; den] -> { p_date = zatom d; p_amt = h_qred (h_qmake (zatom num) (zatom den)) }
+  | _ -> failwith "post"
+
+let within from to_ (p : post) =
+  (match from with Some f -> not (h_ltb p.p_date f) | None -> true)
+  && (match to_ with Some t -> h_ltb p.p_date t | None -> true)
+
+let show_rows = function
+  | Ok rows ->
+    String.concat ";" (List.map (fun r ->
+        let q = h_qred (qsum r.r_posts) in
+        Printf.sprintf "%s:%s:%s/%s:%d" (show_opt r.r_start) (show_opt r.r_eod)
+          (string_of_z (h_qnum q)) (string_of_z (h_qden q)) (List.length r.r_posts)) rows)
+  | Err _ -> "ERR"
+
 let handle line =
   match parse_sexp line with
-  | L [A "period"; A id; A q; n; from; to_; today] ->
-    let st = init { d_q = quantum q; d_n = zatom n } (optz from) (optz to_) in
+  | L [A "period"; A id; A q; n; from; to_; today; fmt; cy] ->
+    let st = init { d_q = quantum q; d_n = zatom n } (bound fmt cy (optz from)) (bound fmt cy (optz to_)) in
     (match dump fuel Z0 st (zatom today) with
      | Ok ((s, f), l) ->
        [Printf.sprintf "%s start=%s finish=%s samples=%s" id (show_opt s) (show_opt f)
           (String.concat "," (List.map (fun (a, b) -> string_of_z a ^ ":" ^ string_of_z b) l))]
      | Err _ -> [id ^ " ERR"])
-  | L (A "reg" :: A id :: A q :: n :: from :: to_ :: sow :: align :: empty :: posts) ->
-    let st = init { d_q = quantum q; d_n = zatom n } (optz from) (optz to_) in
-    let ps = List.map (function
-        | L [d; num; den] -> { p_date = zatom d; p_amt = h_qred (h_qmake (zatom num) (zatom den)) }
-        | _ -> failwith "post") posts in
+  | L (A "reg" :: A id :: A q :: n :: from :: to_ :: sow :: align :: empty :: fmt :: cy :: posts) ->
+    let f = bound fmt cy (optz from) and t = bound fmt cy (optz to_) in
+    let st = init { d_q = quantum q; d_n = zatom n } f t in
+    let ps = List.filter (within f t) (List.map post_of posts) in
     (match flush_posts fuel (zatom sow) (batom align) (batom empty) st ps with
-     | Ok rows ->
-       [Printf.sprintf "%s rows=%s" id
-          (String.concat ";" (List.map (fun r ->
-               let q = h_qred (qsum r.r_posts) in
-               Printf.sprintf "%s:%s:%s/%s:%d" (show_opt r.r_start) (show_opt r.r_eod)
-                 (string_of_z (h_qnum q)) (string_of_z (h_qden q)) (List.length r.r_posts)) rows))]
+     | Ok rows -> [Printf.sprintf "%s rows=%s" id (show_rows (Ok rows))]
      | Err _ -> [id ^ " ERR"])
+  | L (A "greg" :: A id :: A q :: n :: from :: to_ :: sow :: align :: empty :: fmt :: cy :: groups) ->
+    let f = bound fmt cy (optz from) and t = bound fmt cy (optz to_) in
+    let st = init { d_q = quantum q; d_n = zatom n } f t in
+    let gs = List.map (function
+        | L (A "group" :: posts) -> List.filter (within f t) (List.map post_of posts)
+        | _ -> failwith "group") groups in
+    let gs = List.filter (fun g -> g <> []) gs in       (* a group without postings in the bounds does not exist *)
+    [Printf.sprintf "%s groups=%s" id
+       (String.concat "|" (List.map show_rows (group_by_report fuel (zatom sow) (batom align) (batom empty) st gs)))]
   | L [A "civil"; A id; z] ->
     let ((y, m), d) = civil_from_days (zatom z) in
     [Printf.sprintf "%s %s-%s-%s %s" id (string_of_z y) (string_of_z m) (string_of_z d)
